@@ -613,6 +613,7 @@ def check(repo, run, tier):
     g(unitrules.config_entry, repo, run, 'C12.R9')
     g(unitrules.eval_context_init, repo, run, 'C12.R1')
     g(unitrules.eval_pipeline, repo, run, 'C12.R10')
+    g(unitrules.tag_spec, repo, run, 'C12.R4', ['!eval', '!fstr', '!import'])
     g.done()
 
 
